@@ -14,7 +14,7 @@ import re
 import textwrap
 
 from vf import core, docspace, readers
-from vf.blockspace import BLOCKS, BlockSpace
+from vf.blockspace import BLOCKS, BlockSpace, UnusualSpace
 from vf.explorer import Outcome
 from vf.paraspace import ParaSpace
 
@@ -142,9 +142,11 @@ def spaces(tier):
                          "p", "h1", "setext2", "ul", "ul-loose", "ol2", "ul-nested", "ul-2p", "bq", "code", "code-indented", "table",
                          "hr-", "def-title", "fn-cont", "tag")], floors={"output-differs": 1000})
     haz.hazard_rep = haz0.hazard_rep = HAZ.index("-")
+    unusual = UnusualSpace("C01", "blocks-unusual", oracle, ctx_blk, (88, 3, 0), modes=(False, True) if not q else (False,),
+                           floors={"output-differs": 1000})
     if not q:
         deep = ParaSpace("C01", "hazard-deep", HAZ, 2, oracle, ctx_deep, sepnames=("sp", "nl", "hb"), full_upto=2, lead="zz ",
                          max_special_seps=1)
         deep.hazard_rep = haz.hazard_rep
-        return [haz, haz0, inl, blk, deep]
-    return [haz, haz0, inl, blk]
+        return [haz, haz0, inl, blk, deep, unusual]
+    return [haz, haz0, inl, blk, unusual]
